@@ -6,6 +6,8 @@ pm_c17: model driver for C17.  Ops (one per line):
   rowids <limit> <groups>               g = a,b,c;a,b   (each shard result ascending)
   groupcounts <limit> <groups>          g = r.r:c,r.r:c;...  (each shard result = list of group:count)
   pairs <groups>                        g = id:count,id:count;...
+  topn <n> <groups>                     g = id:count,id:count;...  (each item = one shard's FULL row counts;
+                                        TopN(f, n=<n>) through the two-pass protocol; result in count order)
   rows <groups>                         g = row;row;...  row = `_` (no segment) or seg+seg+...,
                                         seg = shard:c,c,c (columns relative to the shard, may be empty)
   bool <groups>                         g = t;f;...
@@ -151,6 +153,13 @@ def stepCoreWith (eng : {α : Type} → (α → α → α) → α → List (List
       ((), ans2 (" ".intercalate ((eng pairsAdd [] groups).map showPair))
                (" ".intercalate ((Spec.pairs groups.flatten).map showPair)) "pairs")
     | none => bad
+  | ["topn", n, gs] =>
+    -- TopN(f, n=N): every item is the FULL list id:count of one shard; two-pass protocol as coded
+    match n.toNat?, parseGroups (fun s => (splitNE s ",").mapM parsePair) gs with
+    | some n, some groups =>
+      ((), ans2 (" ".intercalate ((executeTopNModel n (fun _ => true) groups).map showPair))
+               (" ".intercalate ((Spec.topN n groups.flatten).map showPair)) "topn")
+    | _, _ => bad
   | ["rows", gs] =>
     match parseGroups parseRow gs with
     | some groups =>
